@@ -208,6 +208,12 @@ def impl_oracle(line, out):
                     problems.append("mid %d on session %d transmitted although it is not pending "
                                     "(after its outcome, or never accepted)" % (mid2, s2))
                     continue
+                if r is not None and not r["tx"]:
+                    # a message that waited for a slot goes out for the first time
+                    r["bytes"] = b
+                    r["tx"].append(t)
+                    stats["released"] = stats.get("released", 0) + 1
+                    continue
                 stats["retx"] += 1
                 if r is None:
                     continue
@@ -215,6 +221,10 @@ def impl_oracle(line, out):
                     problems.append("retransmission of mid %d is not byte-identical" % r["mid"])
                 if r["T"] is not None and t < r["tx"][-1] + (r["T"] << (len(r["tx"]) - 1)):
                     problems.append("mid %d retransmitted at %d, before its deadline" % (r["mid"], t))
+                lo_ms = bounds_ms(r["cfg"])[0]
+                if setting_representable(r["cfg"]) and t - r["tx"][-1] < (lo_ms << (len(r["tx"]) - 1)):
+                    problems.append("mid %d retransmitted %d ms after transmission %d: less than ACK_TIMEOUT * 2^%d" %
+                                    (r["mid"], t - r["tx"][-1], len(r["tx"]) - 1, len(r["tx"]) - 1))
                 r["tx"].append(t)
                 if len(r["tx"]) > r["cfg"][4] + 1:
                     problems.append("mid %d transmitted %d times, MAX_RETRANSMIT=%d" %
@@ -246,7 +256,7 @@ def impl_oracle(line, out):
                 last_tick, last_wait = t, w
                 if t != now:
                     problems.append("prepare stamped %d at %d" % (t, now))
-                npend = sum(len(v) for v in live.values())
+                npend = sum(1 for v in live.values() for r in v if r["tx"])
                 if fog:
                     continue
                 if hd < 0:
@@ -265,13 +275,13 @@ def impl_oracle(line, out):
                         problems.append("reported wait %d, earliest deadline in %d" % (w, hd - t))
                     if w == 0 and (hd - t) % (1 << 32) != 0:
                         problems.append("reported wait 0 (= nothing pending) with a deadline in %d" % (hd - t))
-                    pend = [r for v in live.values() for r in v]
+                    pend = [r for v in live.values() for r in v if r["tx"]]
                     if len(pend) == 1 and not pend[0]["taint"]:
                         check_T(pend[0], t, hd, len(pend[0]["tx"]) - 1)
             elif kind == "q":
                 t = int(f[0])
                 ents = [] if f[1] == "-" else [tuple(int(x) for x in z.split("/")) for z in f[1].split(",")]
-                want = sorted((r["sess"], r["mid"]) for v in live.values() for r in v)
+                want = sorted((r["sess"], r["mid"]) for v in live.values() for r in v if r["tx"])
                 got = sorted((s2, m2) for (_, s2, m2, _) in ents if (s2, m2) not in fog)
                 if want != got:
                     problems.append("queue holds %s, pending messages are %s" % (got, want))
@@ -311,7 +321,7 @@ def impl_oracle(line, out):
             if t_ep != now:
                 problems.append("epoll_wait stamped %d at %d" % (t_ep, now))
             process_fired(its[:ep[0]])
-            pend = [r for v in live.values() for r in v]
+            pend = [r for v in live.values() for r in v if r["tx"]]
             dl = [r["tx"][-1] + (r["T"] << (len(r["tx"]) - 1)) for r in pend if r["T"] is not None]
             if et < -1:
                 problems.append("epoll_wait timeout %d" % et)
@@ -332,7 +342,7 @@ def impl_oracle(line, out):
             if t_io != now or ret != max(et, 0):
                 problems.append("coap_io_process returned %d at %d, slept %d until %d" % (ret, t_io, max(et, 0), now))
             if not fog:
-                for r in [r for v in live.values() for r in v]:
+                for r in [r for v in live.values() for r in v if r["tx"]]:
                     if r["T"] is not None and r["tx"][-1] + (r["T"] << (len(r["tx"]) - 1)) <= now:
                         problems.append("coap_io_process left mid %d behind although it was due" % r["mid"])
             continue
@@ -376,6 +386,25 @@ def impl_oracle(line, out):
         if k == "S":
             s, mid, code = int(e[1]) % ns, int(e[2]), int(e[3])
             stats["sent"] += 1
+            if len(its) == 1 and its[0][1] == "s":
+                # no free NSTART slot: the message waits (or is refused: result -1); C08 decides
+                # whether that is right - here only what happens to it once it goes out
+                if int(its[0][2][0]) == -1:
+                    stats["sent"] -= 1
+                    continue
+                if int(its[0][2][0]) != mid:
+                    problems.append("coap_send returned %s for mid %d" % (its[0][2][0], mid))
+                rec = {"sess": s, "mid": mid, "bytes": None, "tx": [], "cfg": cfgs[s], "T": None,
+                       "code": code, "out": None, "taint": False, "tok": e[4].lower()}
+                stats["held"] = stats.get("held", 0) + 1
+                if (s, mid) in fog:
+                    continue
+                l = live.setdefault((s, mid), [])
+                l.append(rec)
+                if len(l) > 1:
+                    fog.add((s, mid))
+                    live.pop((s, mid), None)
+                continue
             if len(its) != 2 or its[0][1] != "tx" or its[1][1] != "s":
                 problems.append("coap_send of mid %d: expected one transmission and a result, got %s" %
                                 (mid, [i[1] for i in its]))
@@ -401,6 +430,8 @@ def impl_oracle(line, out):
         if k in ("K", "P", "R", "N", "X"):
             s, mid = int(e[1]) % ns, int(e[2])
             l = live.get((s, mid), [])
+            if k in ("K", "P", "R", "X") and len(l) == 1 and not l[0]["tx"]:
+                l = []          # still waiting for a slot: not in the send queue, cannot be answered
             if k == "K" and any(is_request(r["code"]) for r in l):
                 relaxed = True
             if k in ("K", "P", "R", "X") and (len(l) > 1 or (s, mid) in fog):
@@ -424,7 +455,7 @@ def impl_oracle(line, out):
                 for key in list(live):
                     if key[0] != s:
                         continue
-                    for r in [x for x in live[key] if x["tok"] == tok]:
+                    for r in [x for x in live[key] if x["tok"] == tok and x["tx"]]:
                         live[key].remove(r)
                         r["out"] = "acked"
                         closed.append(r)
@@ -532,7 +563,7 @@ def main(run):
         "max_retransmit <= 255 in the theorems (8-bit retransmit_cnt); no wrap of the 64-bit tick counter",
         "only the send queue's timers enter the reported wait (no observe/async/block/DTLS/keep-alive timers); "
         "after an empty ACK to a request the library's own receive timer is compared one-sidedly",
-        "NSTART hold-back is C08's: drivers keep at most NSTART CONs per session in flight",
+        "NSTART: hold-back and release are modelled for the released message's timer; order/fairness of slots is C08's",
         "allocation never fails (C18)"]
     run.prove()
     if run.tier != "quick" and getattr(run, "proof_broken", None) is None:
@@ -583,6 +614,8 @@ def main(run):
         gens.append(G.gen_cancel_case(r))
     for _ in range(300 if quick else 10000):
         gens.append(G.gen_ioloop_case(r))
+    for _ in range(700 if quick else 25000):
+        gens.append(G.gen_held_case(r))
     for _ in range(40 if quick else 1000):
         gens.append(G.gen_separate_case(r))
     for c in gens:
